@@ -100,7 +100,9 @@ PoolC18 == [i \in DOMAIN ArgTexts |-> JsR({H("a.com")}, ArgTexts[i], {})]
     \o << JsR({H("a.com")}, "p1, b", {}), JsR({H("a.com")}, "p1, c", P2), JsR({H("a.com")}, "usesp1, z", {}),
           JsR({H("a.com")}, "p12, a", P2), JsR({H("a.com")}, "p12, a", P12), JsR({H("a.com")}, "deep", P2),
           [JsR({H("a.com")}, "free", {}) EXCEPT !.unhide = TRUE], [JsR({H("a.com")}, "", {}) EXCEPT !.unhide = TRUE],
-          [JsR({H("a.com")}, "fr, a, b", {}) EXCEPT !.unhide = TRUE] >>
+          [JsR({H("a.com")}, "fr, a, b", {}) EXCEPT !.unhide = TRUE],
+          \* an exception anchored less specifically (entity) than the injection it cancels
+          [JsR({E("a")}, "free", {}) EXCEPT !.unhide = TRUE] >>
 HostsC18 == <<"a.com">>
 
 --------------------------------------------------------------------------
